@@ -183,7 +183,10 @@ func selectAddrFromSubnetOffset(net1 *phantomNet, offset *big.Int) (*PhantomIP, 
 	}
 
 	ipBigInt.Add(ipBigInt, offset)
-	ip := net.IP(ipBigInt.Bytes())
+	// FillBytes keeps leading zero bytes (big.Int.Bytes drops them, which turned
+	// addresses in networks like 0.1.2.0/24 or 64:ff9b::/96 into 3/15 byte slices).
+	ip := make(net.IP, addrLen/8)
+	ipBigInt.FillBytes(ip)
 
 	return &PhantomIP{ip: &ip, supportRandomPort: net1.supportRandomPort}, nil
 }
